@@ -212,6 +212,7 @@ def c10(fails, stats, tier):
 
 # ---------------------------------------------------------------------------------------------------------- C11
 def c11(fails, stats, tier):
+    container_contracts(fails, stats, tier)
     now = DtnTimeField.datetime_to_dtntime(datetime.datetime.now(datetime.timezone.utc))
     ages = [5 * 1000, 7 * 3600 * 1000, (23 * 3600 + 59 * 60) * 1000, 51 * 3600 * 1000, 10 * 86400 * 1000]
     ext_sets = [
@@ -351,6 +352,115 @@ def c19(fails, stats, tier):
                     C8.check_output_bundle(raw, case, probe)
                     if probe:
                         fails.append({'check': 'S-report-crc', 'case': case, 'got': probe[0]})
+
+
+# ------------------------------------------------------------------------------ BundleContainer bookkeeping (under C11)
+def container_contracts(fails, stats, tier):
+    '''The contracts the proofs ASSUME for bp.util.BundleContainer (block_num, block_type, add_block, remove_block,
+    reload, fix_block_num: contracts/bp_fwd.py, bp_apps.py) checked at run time on the real class over enumerated
+    operation sequences, on two containers side by side (operations on one must not touch the other).'''
+    def fresh_pair():
+        ext = ((9, 'hop', (30, 23)), (4, 'prev', 'dtn://p/'), (3, 'age', 1234), (5, 192, b'\x01\x02'))
+        a = BundleContainer(Bundle(mk(ext=ext, crc=(2, 1, 2))))
+        b = BundleContainer(Bundle(mk(ext=((2, 'hop', (9, 1)), (3, 193, b'\x07')), seq=8, crc=(1, 1, 1))))
+        return a, b
+
+    def snapshot(c):
+        return [(id(x), x.block_num, x.type_code, bytes(x.getfieldval('btsd')) if x.getfieldval('btsd') is not None else None)
+                for x in c.bundle.blocks]
+
+    def coherent(c):
+        blocks = list(c.bundle.blocks)
+        nums = [x.block_num for x in blocks if x.block_num is not None]
+        if len(set(nums)) != len(nums):
+            return 'duplicate block numbers %s' % nums
+        for x in blocks:
+            if x.block_num is not None:
+                try:
+                    if c.block_num(x.block_num) is not x:
+                        return 'block_num(%s) is another block' % x.block_num
+                except KeyError:
+                    return 'block_num(%s) missing' % x.block_num
+        for n in list(c._block_num):
+            if n != 0 and not any(x.block_num == n and c._block_num[n] is x for x in blocks):
+                return 'stale index entry %s' % n
+        for cls in (HopCountBlock, PreviousNodeBlock, BundleAgeBlock):
+            lst = c.block_type(cls)
+            want = [x for x in blocks if isinstance(x.payload, cls)]
+            if sorted(map(id, lst)) != sorted(map(id, want)) or len(set(map(id, lst))) != len(lst):
+                return 'block_type(%s) lists %d blocks, bundle has %d' % (cls.__name__, len(lst), len(want))
+        if blocks and blocks[-1].type_code != 1:
+            return 'payload block is not last'
+        return None
+
+    def new_block(kind):
+        if kind == 'prev':
+            return CanonicalBlock() / PreviousNodeBlock(node='dtn://me/')
+        if kind == 'age':
+            return CanonicalBlock() / BundleAgeBlock(age=5)
+        if kind == 'hop-numbered-3':
+            return CanonicalBlock(block_num=3) / HopCountBlock(limit=5, count=1)
+        return CanonicalBlock(type_code=200, btsd=b'\x09')
+    ops = [('remove', 0), ('remove', 1), ('remove', 2), ('add', 'prev'), ('add', 'age'), ('add', 'hop-numbered-3'),
+           ('add', 'unknown'), ('fix',), ('reload',)]
+    depth = 3 if tier == 'quick' else 4
+    seqs = []
+    for n in range(1, depth + 1):
+        seqs.extend(itertools.product(ops, repeat=n))
+    if tier == 'quick':
+        seqs = [s for i, s in enumerate(seqs) if len(s) < 3 or i % 3 == 0]
+    for seq in seqs:
+        stats['evaluations'] += 1
+        case = {'scenario': 'container', 'ops': [list(o) for o in seq]}
+        a, b = fresh_pair()
+        other0 = snapshot(b)
+        bad = None
+        for step, op in enumerate(seq):
+            before = snapshot(a)
+            try:
+                if op[0] == 'remove':
+                    ext = [x for x in a.bundle.blocks if x.type_code != 1]
+                    if op[1] >= len(ext):
+                        continue
+                    victim = ext[op[1]]
+                    a.remove_block(victim)
+                    if any(x is victim for x in a.bundle.blocks):
+                        bad = 'removed block still there'
+                    kept = [t for t in before if t[0] != id(victim)]
+                    if [t[0] for t in snapshot(a)] != [t[0] for t in kept]:
+                        bad = bad or 'remove_block changed other blocks'
+                elif op[0] == 'add':
+                    blk = new_block(op[1])
+                    try:
+                        a.add_block(blk)
+                    except KeyError:
+                        if snapshot(a) != before:
+                            bad = 'add_block raised KeyError but changed the bundle'
+                        continue
+                    now = snapshot(a)
+                    if not any(x is blk for x in a.bundle.blocks) or a.bundle.blocks[-2] is not blk:
+                        bad = 'added block is not just before the payload'
+                    if [t for t in now if t[0] != id(blk)] != before:
+                        bad = bad or 'add_block changed other blocks (number or data)'
+                    if blk.block_num is None or blk.getfieldval('btsd') is None:
+                        bad = bad or 'added block has no number / no data'
+                elif op[0] == 'fix':
+                    a.fix_block_num()
+                    now = snapshot(a)
+                    if any(o[1] is not None and o[1] != n[1] for o, n in zip(before, now)) or any(n[1] is None for n in now):
+                        bad = 'fix_block_num changed an existing number or left a block unnumbered'
+                elif op[0] == 'reload':
+                    a.reload()
+                    if [(t[0], t[3]) for t in snapshot(a) if t[3] is not None] != [(t[0], t[3]) for t in before if t[3] is not None]:
+                        bad = 'reload changed block data that was set'
+            except Exception as e:  # noqa
+                bad = 'raised %s: %s' % (type(e).__name__, e)
+            bad = bad or coherent(a)
+            if snapshot(b) != other0 or coherent(b):
+                bad = bad or 'the other container changed (%s)' % (coherent(b) or 'blocks differ')
+            if bad:
+                fails.append({'check': 'K-container-contract', 'case': case, 'step': step, 'got': bad})
+                break
 
 
 # ---------------------------------------------------------------------------------------------------------- C12
